@@ -5,7 +5,11 @@
 //!     mode   = strict | default          (ParseOptions::strict() / PdfReader::new)
 //!     damage = none | nosx | badsx       (every `startxref` keyword destroyed / last startxref -> 0)
 //!     rev    = <xk>:<obj+obj+…|.>:<ent+ent+…|.>
-//!     xk     = c | s<num> | z<num>       classic table / xref stream (raw) / xref stream (Flate)
+//!     xk     = c | s<num> | z<num> | h<num> | y<num>   classic table / xref stream (raw) / xref stream
+//!              (Flate) / hybrid-reference: classic table + /XRefStm stream object <num> (raw / Flate);
+//!              optional suffix `@<k>`: /Prev names the section of revision k (0-based; k >= own index
+//!              makes a loop), `@-`: no /Prev at all.  Default: /Prev = the previous revision.
+//!              For h/y the entries are `<table entries>/<XRefStm entries>`.
 //!     obj    = <num>.<gen>v<val> | <num>.<gen>o<n~v_n~v…> | <num>.<gen>z<n~v_…>   (o/z = object stream raw/Flate)
 //!     ent    = <num>f<next>.<gen> | <num>n<physidx>.<gen> | <num>c<stm>.<idx>
 //! The file is produced by the reference writer (shared_b0417/reffile.rs), opened with the REAL
@@ -25,6 +29,7 @@ struct Req {
     mode: String,
     damage: String,
     revs: Vec<Rev>,
+    opts: Vec<RevOpt>,
     queries: Vec<(u32, u16)>,
 }
 
@@ -73,26 +78,49 @@ fn parse_list<T>(s: &str, sep: char, f: fn(&str) -> Option<T>) -> Option<Vec<T>>
     s.split(sep).map(f).collect()
 }
 
-fn parse_rev(s: &str) -> Option<Rev> {
+fn parse_rev(s: &str) -> Option<(Rev, RevOpt)> {
     let parts: Vec<&str> = s.split(':').collect();
     if parts.len() != 3 {
         return None;
     }
-    let xk = if parts[0] == "c" {
+    let mut opt = RevOpt::default();
+    let (xks, prev) = match parts[0].split_once('@') {
+        Some((a, b)) => (a, Some(b)),
+        None => (parts[0], None),
+    };
+    if let Some(p) = prev {
+        opt.prev = Some(if p == "-" { None } else { Some(p.parse().ok()?) });
+    }
+    let mut hybrid: Option<(u32, bool)> = None;
+    let xk = if xks == "c" {
         XKind::Classic
-    } else if let Some(n) = parts[0].strip_prefix('s') {
+    } else if let Some(n) = xks.strip_prefix('s') {
         XKind::Stream { num: n.parse().ok()?, flate: false }
-    } else if let Some(n) = parts[0].strip_prefix('z') {
+    } else if let Some(n) = xks.strip_prefix('z') {
         XKind::Stream { num: n.parse().ok()?, flate: true }
+    } else if let Some(n) = xks.strip_prefix('h') {
+        hybrid = Some((n.parse().ok()?, false));
+        XKind::Classic
+    } else if let Some(n) = xks.strip_prefix('y') {
+        hybrid = Some((n.parse().ok()?, true));
+        XKind::Classic
     } else {
         return None;
     };
     let objs = parse_list(parts[1], '+', parse_obj)?;
-    let ents = parse_list(parts[2], '+', parse_ent)?;
+    let (tab, stm) = match (hybrid, parts[2].split_once('/')) {
+        (Some(_), Some((a, b))) => (a, Some(b)),
+        (None, None) => (parts[2], None),
+        _ => return None,
+    };
+    let ents = parse_list(tab, '+', parse_ent)?;
     if matches!(xk, XKind::Classic) && ents.iter().any(|(_, e)| matches!(e, Ent::Comp { .. })) {
         return None; // a classic table cannot hold a compressed entry
     }
-    Some(Rev { objs, xk, ents, root: 1, trailer_extra: String::new(), size_override: None })
+    if let (Some((num, flate)), Some(st)) = (hybrid, stm) {
+        opt.hybrid = Some((num, flate, parse_list(st, '+', parse_ent)?));
+    }
+    Some((Rev { objs, xk, ents, root: 1, trailer_extra: String::new(), size_override: None }, opt))
 }
 
 fn parse_req(req: &str) -> Option<Req> {
@@ -100,7 +128,11 @@ fn parse_req(req: &str) -> Option<Req> {
     if p.len() != 5 || p[0] != "h" {
         return None;
     }
-    let revs = parse_list(p[3], ';', parse_rev)?;
+    let both = parse_list(p[3], ';', parse_rev)?;
+    if both.iter().any(|(_, o)| matches!(o.prev, Some(Some(k)) if k >= both.len())) {
+        return None;
+    }
+    let (revs, opts): (Vec<Rev>, Vec<RevOpt>) = both.into_iter().unzip();
     let queries = parse_list(p[4], ',', |t| {
         let (a, b) = t.split_once('.')?;
         Some((a.parse().ok()?, b.parse().ok()?))
@@ -108,7 +140,7 @@ fn parse_req(req: &str) -> Option<Req> {
     if !matches!(p[1], "strict" | "default") || !matches!(p[2], "none" | "nosx" | "badsx") {
         return None;
     }
-    Some(Req { mode: p[1].into(), damage: p[2].into(), revs, queries })
+    Some(Req { mode: p[1].into(), damage: p[2].into(), revs, opts, queries })
 }
 
 fn show_obj(o: &PdfObject) -> String {
@@ -154,7 +186,7 @@ fn damage(built: &Built, kind: &str) -> Vec<u8> {
 
 fn run(req: &str) -> String {
     let Some(r) = parse_req(req) else { return "bad-request".into() };
-    let built = build(&r.revs);
+    let built = build_with(&r.revs, &r.opts);
     let bytes = damage(&built, &r.damage);
     if let Ok(dir) = std::env::var("C04_DUMP") {
         let _ = std::fs::write(dir, &bytes);
@@ -239,6 +271,8 @@ struct Hist {
     next_num: u32,
     flip: bool,
     multi: bool,
+    recomp: bool,
+    hybrid: bool,
     mentioned: std::collections::BTreeSet<u32>,
 }
 
@@ -262,12 +296,44 @@ fn fresh_num(h: &mut Hist, rng: &mut Rng) -> u32 {
     n
 }
 
+/// an entry of a hybrid revision may be hidden from the classic table: it goes to the /XRefStm
+/// stream and the table either does not list the number or lists it as free
+fn place(
+    rng: &mut Rng,
+    hybrid: bool,
+    tab: &mut Vec<(u32, String)>,
+    stm: &mut Vec<(u32, String)>,
+    num: u32,
+    ent: String,
+    must_hide: bool,
+) {
+    if hybrid && (must_hide || rng.chance(1, 3)) {
+        stm.push((num, ent));
+        if rng.chance(1, 2) {
+            tab.push((num, format!("{}f0.65535", num)));
+        }
+    } else {
+        tab.push((num, ent));
+    }
+}
+
+#[derive(Clone, Copy, PartialEq)]
+enum RK {
+    Classic,
+    Stream(bool),
+    /// hybrid-reference: classic table + /XRefStm stream (Flate?)
+    Hybrid(bool),
+}
+
 /// one revision: `ops` = (num, what) with what: 0 define/redefine uncompressed, 1 define compressed, 2 free
-fn emit_rev(h: &mut Hist, rng: &mut Rng, stream_kind: Option<bool>, ops: &[(u32, u8)], first: bool) {
+fn emit_rev(h: &mut Hist, rng: &mut Rng, kind: RK, ops: &[(u32, u8)], first: bool) {
+    let hybrid = matches!(kind, RK::Hybrid(_));
     let mut objs: Vec<String> = vec![];
-    let mut ents: Vec<(u32, String)> = vec![];
+    // entries of the section proper / of the /XRefStm stream of a hybrid revision
+    let mut tab: Vec<(u32, String)> = vec![];
+    let mut stm: Vec<(u32, String)> = vec![];
     if first {
-        ents.push((0, "0f0.65535".to_string()));
+        tab.push((0, "0f0.65535".to_string()));
     }
     // compressed ones are grouped into 1..2 object streams
     let comp: Vec<u32> = ops.iter().filter(|o| o.1 == 1).map(|o| o.0).collect();
@@ -304,7 +370,7 @@ fn emit_rev(h: &mut Hist, rng: &mut Rng, stream_kind: Option<bool>, ops: &[(u32,
                 let v = h.next_val;
                 h.next_val += 1;
                 objs.push(format!("{}.{}v{}", num, gen, v));
-                ents.push((*num, format!("{}n{}.{}", num, h.phys_count, gen)));
+                place(rng, hybrid, &mut tab, &mut stm, *num, format!("{}n{}.{}", num, h.phys_count, gen), false);
                 h.phys_count += 1;
                 h.state.insert(*num, St::Live { gen, comp: false });
             }
@@ -319,7 +385,15 @@ fn emit_rev(h: &mut Hist, rng: &mut Rng, stream_kind: Option<bool>, ops: &[(u32,
                     Some(St::Free { gen }) => *gen,
                     None => 0,
                 };
-                ents.push((*num, format!("{}f0.{}", num, gen)));
+                // the free list: `next` names another (any) object number; readers do not follow it
+                let next = if rng.chance(1, 2) { 0 } else { rng.below(12) };
+                // a free entry stays in the classic table (in the stream it would be shadowed by
+                // nothing and mean the same; half of the time put it there)
+                if hybrid && rng.chance(1, 3) {
+                    stm.push((*num, format!("{}f{}.{}", num, next, gen)));
+                } else {
+                    tab.push((*num, format!("{}f{}.{}", num, next, gen)));
+                }
                 h.state.insert(*num, St::Free { gen });
             }
             _ => {}
@@ -333,30 +407,53 @@ fn emit_rev(h: &mut Hist, rng: &mut Rng, stream_kind: Option<bool>, ops: &[(u32,
             let v = h.next_val;
             h.next_val += 1;
             items.push(format!("{}~{}", num, v));
-            ents.push((*num, format!("{}c{}.{}", num, snum, i)));
+            if matches!(h.state.get(num), Some(St::Live { comp: true, .. })) {
+                h.recomp = true;
+            }
+            place(rng, hybrid, &mut tab, &mut stm, *num, format!("{}c{}.{}", num, snum, i), true);
             h.state.insert(*num, St::Live { gen: 0, comp: true });
         }
         let z = if rng.chance(1, 2) { 'z' } else { 'o' };
         objs.push(format!("{}.0{}{}", snum, z, items.join("_")));
-        ents.push((snum, format!("{}n{}.0", snum, h.phys_count)));
+        place(rng, hybrid, &mut tab, &mut stm, snum, format!("{}n{}.0", snum, h.phys_count), false);
         h.phys_count += 1;
     }
-    let xk = match stream_kind {
-        None => "c".to_string(),
-        Some(fl) => {
+    let xk = match kind {
+        RK::Classic => "c".to_string(),
+        RK::Stream(fl) => {
             let xnum = fresh_num(h, rng);
             h.stream_nums.push(xnum);
-            ents.push((xnum, format!("{}n{}.0", xnum, h.phys_count)));
+            tab.push((xnum, format!("{}n{}.0", xnum, h.phys_count)));
             h.phys_count += 1;
             format!("{}{}", if fl { 'z' } else { 's' }, xnum)
         }
+        RK::Hybrid(fl) => {
+            let xnum = fresh_num(h, rng);
+            h.stream_nums.push(xnum);
+            tab.push((xnum, format!("{}n{}.0", xnum, h.phys_count)));
+            h.phys_count += 1;
+            h.hybrid = true;
+            format!("{}{}", if fl { 'y' } else { 'h' }, xnum)
+        }
     };
-    ents.sort_by_key(|e| e.0);
+    tab.sort_by_key(|e| e.0);
+    stm.sort_by_key(|e| e.0);
     let show = |v: Vec<String>| if v.is_empty() { ".".to_string() } else { v.join("+") };
-    h.revs.push(format!("{}:{}:{}", xk, show(objs), show(ents.into_iter().map(|e| e.1).collect())));
+    let ents = if hybrid {
+        format!(
+            "{}/{}",
+            show(tab.into_iter().map(|e| e.1).collect()),
+            show(stm.into_iter().map(|e| e.1).collect())
+        )
+    } else {
+        show(tab.into_iter().map(|e| e.1).collect())
+    };
+    h.revs.push(format!("{}:{}:{}", xk, show(objs), ents));
 }
 
-fn gen_history(rng: &mut Rng, max_revs: u64, force_flip: bool) -> (Hist, Vec<(u32, u16)>) {
+/// force: 0 nothing, 1 a compressed->plain redefinition is likely, 2 the first appended revision
+/// re-defines a compressed object (that has siblings in its object stream) inside a NEW object stream
+fn gen_history(rng: &mut Rng, max_revs: u64, force: u8) -> (Hist, Vec<(u32, u16)>) {
     let mut h = Hist {
         revs: vec![],
         phys_count: 0,
@@ -366,25 +463,49 @@ fn gen_history(rng: &mut Rng, max_revs: u64, force_flip: bool) -> (Hist, Vec<(u3
         next_num: 1,
         flip: false,
         multi: false,
+        recomp: false,
+        hybrid: false,
         mentioned: Default::default(),
     };
     // base
-    let base_stream = if force_flip || rng.chance(2, 3) { Some(rng.chance(1, 2)) } else { None };
-    let with_objstm = base_stream.is_some() && (force_flip || rng.chance(2, 3));
-    let n_objs = 2 + rng.below(7) as usize;
+    let base_kind = if force != 0 || rng.chance(5, 8) {
+        RK::Stream(rng.chance(1, 2))
+    } else if rng.chance(1, 3) {
+        RK::Hybrid(rng.chance(1, 2))
+    } else {
+        RK::Classic
+    };
+    let with_objstm = base_kind != RK::Classic && (force != 0 || rng.chance(2, 3));
+    let n_objs = (if force == 2 { 4 } else { 2 }) + rng.below(7) as usize;
     let mut ops = vec![];
     for i in 0..n_objs {
         let num = if i < 2 { i as u32 + 1 } else { fresh_num_peek(&mut h, rng, &ops) };
-        let comp = with_objstm && rng.chance(2, 3);
+        let comp = with_objstm && (rng.chance(2, 3) || (force == 2 && (i == 2 || i == 3)));
         ops.push((num, if comp { 1 } else { 0 }));
     }
-    emit_rev(&mut h, rng, base_stream, &ops, true);
-    let k = rng.below(max_revs + 1);
-    for _ in 0..k {
-        let kind = if rng.chance(1, 2) { None } else { Some(rng.chance(1, 2)) };
+    emit_rev(&mut h, rng, base_kind, &ops, true);
+    let k = if force == 2 { 1 + rng.below(max_revs) } else { rng.below(max_revs + 1) };
+    for r in 0..k {
+        let kind = match rng.below(20) {
+            0..=7 => RK::Classic,
+            8..=16 => RK::Stream(rng.chance(1, 2)),
+            _ => RK::Hybrid(rng.chance(1, 2)),
+        };
+        let kind = if force == 2 && r == 0 && kind == RK::Classic { RK::Stream(rng.chance(1, 2)) } else { kind };
         let n_ops = 1 + rng.below(4) as usize;
         let mut ops: Vec<(u32, u8)> = vec![];
         let known: Vec<u32> = h.state.keys().copied().collect();
+        if force == 2 && r == 0 {
+            let comps: Vec<u32> = h
+                .state
+                .iter()
+                .filter(|(_, st)| matches!(st, St::Live { comp: true, .. }))
+                .map(|(n, _)| *n)
+                .collect();
+            if !comps.is_empty() {
+                ops.push((*rng.pick(&comps), 1));
+            }
+        }
         for _ in 0..n_ops {
             let num = if rng.chance(1, 6) { fresh_num_peek(&mut h, rng, &ops) } else { *rng.pick(&known) };
             if ops.iter().any(|o| o.0 == num) {
@@ -394,7 +515,7 @@ fn gen_history(rng: &mut Rng, max_revs: u64, force_flip: bool) -> (Hist, Vec<(u3
                 0..=4 => 0,
                 5..=6 => 2,
                 _ => {
-                    if kind.is_some() {
+                    if kind != RK::Classic {
                         1
                     } else {
                         0
@@ -463,7 +584,7 @@ fn mutate(rng: &mut Rng, revs: &[String]) -> Vec<String> {
     let i = rng.below(revs.len() as u64) as usize;
     let parts: Vec<String> = revs[i].split(':').map(|s| s.to_string()).collect();
     let mut ents: Vec<String> = if parts[2] == "." { vec![] } else { parts[2].split('+').map(|s| s.to_string()).collect() };
-    if ents.is_empty() {
+    if ents.is_empty() || parts[0].starts_with('h') || parts[0].starts_with('y') {
         return revs;
     }
     match rng.below(4) {
@@ -471,7 +592,7 @@ fn mutate(rng: &mut Rng, revs: &[String]) -> Vec<String> {
             // duplicate an entry's number with a different kind later in the same section
             let e = rng.pick(&ents).clone();
             if let Some((num, _)) = parse_ent(&e) {
-                let dup = if rng.chance(1, 2) || parts[0] == "c" {
+                let dup = if rng.chance(1, 2) || parts[0].starts_with('c') {
                     format!("{}f0.{}", num, rng.below(3))
                 } else {
                     format!("{}c{}.0", num, 1 + rng.below(6))
@@ -552,22 +673,41 @@ fn gen(rng: &mut Rng, tier: Tier) -> Vec<Case> {
     let mut cases = vec![];
     let n = if tier == Tier::Quick { 700 } else { 12000 };
     for i in 0..n {
-        let force_flip = i % 5 == 0;
-        let (h, q) = gen_history(rng, if tier == Tier::Quick { 4 } else { 7 }, force_flip);
+        let force = if i % 5 == 0 {
+            1
+        } else if i % 7 == 0 {
+            2
+        } else {
+            0
+        };
+        let (mut h, q) = gen_history(rng, if tier == Tier::Quick { 4 } else { 7 }, force);
         let mode = if rng.chance(1, 4) { "strict" } else { "default" };
         let dmg = match rng.below(6) {
             0 => "nosx",
             1 => "badsx",
             _ => "none",
         };
+        // /Prev of one appended revision redirected: an older section skipped, no /Prev at all, or a
+        // loop (itself / a later section)
+        let mut prevov = false;
+        if dmg == "none" && h.revs.len() >= 2 && rng.chance(1, 6) {
+            let i = 1 + rng.below(h.revs.len() as u64 - 1) as usize;
+            let target = if rng.chance(1, 4) { "-".to_string() } else { rng.below(h.revs.len() as u64).to_string() };
+            let (xk, rest) = h.revs[i].split_once(':').unwrap();
+            h.revs[i] = format!("{}@{}:{}", xk, target, rest);
+            prevov = true;
+        }
         let base = &h.revs[0];
         let tags = format!(
-            "valid base-{} revs{} {}{}{}{}",
+            "valid base-{} revs{} {}{}{}{}{}{}{}",
             &base[..1],
             h.revs.len() - 1,
             mode,
             if dmg == "none" { "".to_string() } else { format!(" dmg-{}", dmg) },
             if h.flip { " kindflip" } else { "" },
+            if h.recomp { " recompressed" } else { "" },
+            if h.hybrid { " hybrid" } else { "" },
+            if prevov { " prev-redirected" } else { "" },
             if h.multi { " nt" } else { "" }
         );
         cases.push(Case::new(format!("h {} {} {} {}", mode, dmg, h.revs.join(";"), show_q(&q)), tags));
